@@ -162,6 +162,7 @@ def case_hash(obj):
 
 
 def casedir(pid):
+    shutil.rmtree(os.path.join(VERIF, "replays", pid), ignore_errors=True)
     d = os.path.join(BUILD, "cases", pid)
     shutil.rmtree(d, ignore_errors=True)
     os.makedirs(d, exist_ok=True)
